@@ -61,16 +61,26 @@ func (w *World) openAll() int {
 	return n
 }
 
+// poolViolate raises a C13 invariant violation (only in the C13 scenario; the other
+// Transport scenarios judge their own property and just count it).
+func (w *World) poolViolate(oracle, sig, detail string) {
+	if w.P.Scenario == "c13" {
+		w.Violate(oracle, sig, detail)
+	} else {
+		w.Probe("pool-invariant-broken:" + sig)
+	}
+}
+
 func (w *World) checkPool(where string) {
 	ts := w.TS
 	active, idle := rpc.VerifTransportCounts(ts.T)
 	for i := range w.P.Servers {
 		a := addrOf(i)
 		if idle[a] > ts.effIdle {
-			w.Violate("C13.idle-limit", "idle-limit-exceeded", fmt.Sprintf("%s: %d idle connections to %s, MaxIdleConnsPerHost is effectively %d (configured %d, MaxConnsPerHost %d)", where, idle[a], a, ts.effIdle, w.P.Params["maxidle"], w.P.Params["maxconns"]))
+			w.poolViolate("C13.idle-limit", "idle-limit-exceeded", fmt.Sprintf("%s: %d idle connections to %s, MaxIdleConnsPerHost is effectively %d (configured %d, MaxConnsPerHost %d)", where, idle[a], a, ts.effIdle, w.P.Params["maxidle"], w.P.Params["maxconns"]))
 		}
 		if active[a]+idle[a] > ts.effConns {
-			w.Violate("C13.conn-limit", "pooled-connections-exceed-limit", fmt.Sprintf("%s: %d active + %d idle connections to %s, MaxConnsPerHost is effectively %d", where, active[a], idle[a], a, ts.effConns))
+			w.poolViolate("C13.conn-limit", "pooled-connections-exceed-limit", fmt.Sprintf("%s: %d active + %d idle connections to %s, MaxConnsPerHost is effectively %d", where, active[a], idle[a], a, ts.effConns))
 		}
 		if n := w.openTo(a); n > ts.effConns {
 			var ids []string
@@ -79,7 +89,7 @@ func (w *World) checkPool(where string) {
 					ids = append(ids, fmt.Sprintf("#%d(opened %v, cut=%q)", p.ID, p.Opened, p.CutBy))
 				}
 			}
-			w.Violate("C13.conn-limit", "open-connections-exceed-limit", fmt.Sprintf("%s at %v: %d open connections to %s %v, pool holds %d active + %d idle, MaxConnsPerHost is effectively %d", where, simrt.Now(), n, a, ids, active[a], idle[a], ts.effConns))
+			w.poolViolate("C13.conn-limit", "open-connections-exceed-limit", fmt.Sprintf("%s at %v: %d open connections to %s %v, pool holds %d active + %d idle, MaxConnsPerHost is effectively %d", where, simrt.Now(), n, a, ids, active[a], idle[a], ts.effConns))
 		}
 	}
 	if idle != nil {
@@ -138,7 +148,7 @@ func (w *World) RunTransportWorld() {
 			if os.Getenv("VERIF_DEBUG") != "" {
 				detail += "\n" + string(debug.Stack())
 			}
-			w.Violate("C13.conn-limit", "open-connections-exceed-limit", detail)
+			w.poolViolate("C13.conn-limit", "open-connections-exceed-limit", detail)
 		}
 		w.Probe("dial")
 	}
@@ -442,6 +452,29 @@ func genC14(r *simrt.Rand, tier string, idx uint64) *Plan {
 	ns := len(p.Servers)
 	sequential := idx%2 == 0
 	p.Params["sequential"] = b2i(sequential)
+	if sequential && idx%4 == 2 {
+		// regular spacing: one caller per address calling every f x KeepAlive, a kill/restart in
+		// the middle; with MaxConnsPerHost >= 2 the round robin makes some pooled connections
+		// retire to the idle queue while others stay active
+		p.Params["maxconns"] = 2 + r.Intn(2)
+		p.Params["maxidle"] = 1 + r.Intn(3)
+		for a := 0; a < ns; a++ {
+			f := []int{30, 60, 75, 90, 120, 250}[r.Intn(6)]
+			gap := p.Params["keepalive_ms"] * f / 100 * 1000
+			cp := ClientPlan{}
+			n := 8 + r.Intn(10)
+			k := 2 + r.Intn(n-4)
+			for i := 0; i < n; i++ {
+				op := Op{Kind: []string{"call", "ping", "ctx", "call"}[r.Intn(4)], Addr: a, Shape: r.Intn(4), Size: r.Intn(100), Rep: r.Intn(100), CtxBuf: -1}
+				cp.Ops = append(cp.Ops, op, Op{Kind: "sleep", N: gap})
+				if i == k {
+					cp.Ops = append(cp.Ops, Op{Kind: "kill", Addr: a}, Op{Kind: "sleep", N: 1000 * r.Intn(3000)}, Op{Kind: "restart", Addr: a})
+				}
+			}
+			p.Clients = append(p.Clients, cp)
+		}
+		return p
+	}
 	if sequential {
 		// one caller per address, so that "at most one failure per pooled connection" can be counted
 		for a := 0; a < ns; a++ {
@@ -655,6 +688,15 @@ func genC15(r *simrt.Rand, tier string, idx uint64) *Plan {
 		p.Clients = append(p.Clients, cp)
 	}
 	p.Params["quiet_ms"] = p.Params["keepalive_ms"] + p.Params["idle_ms"] + 3000 + 500
+	if idx%3 == 1 {
+		// Close while connections are parked in the idle queue: retired (KeepAlive passed)
+		// but not yet expired (IdleConnTimeout not passed)
+		p.Params["maxconns"] = 2 + r.Intn(4)
+		p.Params["maxidle"] = 2 + r.Intn(4)
+		p.Params["idle_ms"] = 20000
+		p.Params["quiet_ms"] = p.Params["keepalive_ms"] + 2500
+		p.Params["quiet_partial"] = 1
+	}
 	return p
 }
 
@@ -708,7 +750,9 @@ func checkC15(w *World, run *simrt.Run) {
 		}
 	}
 	// liveness: unused connections are gone after KeepAlive + IdleConnTimeout + 3 ticks
-	if ts.quietChecked {
+	if ts.quietChecked && w.P.Params["quiet_partial"] == 1 {
+		w.Probes["connections-open-at-close"] += ts.openAfterQuiet
+	} else if ts.quietChecked {
 		streamOpen := 0
 		for _, s := range w.Streams {
 			if s.Opened && !s.Closed {
